@@ -783,7 +783,7 @@ def _canon_unit(label: str, o: Any) -> Any:
 
 def unit_correspondence(ctx: Ctx, st: Optional[LeanStatus], res: Result) -> None:
     rng = ctx.sub_rng("unit")
-    n = ctx.budget(400, 4000)
+    n = ctx.budget(400, 10000)
     cases = []
     for _ in range(n):
         s = gen_schema(rng)
@@ -951,20 +951,18 @@ def run(ctx: Ctx, st: Optional[LeanStatus]) -> Result:
                 "MockTransport calls; a case is non-trivial when a DFS has successors / a filter keeps a proper non-empty subset / "
                 "a flag combination actually pruned a class")
     res.extra["fingerprints"] = common.fingerprints(ctx, FINGERPRINTS)
-    try:
+    if True:
         replay_corpus(ctx, st, res)
         ctx.log(f"corpus replayed: {res.witness_status} failures so far={len(res.failures)} mismatches={len(res.mismatches)}")
         unit_correspondence(ctx, st, res)
         ctx.log(f"unit correspondence done: evaluations={res.evaluations} mismatches={len(res.mismatches)}")
         rng = ctx.sub_rng("full")
-        cases = [gen_case(rng) for _ in range(ctx.budget(70, 700))]
+        cases = [gen_case(rng) for _ in range(ctx.budget(70, 1200))]
         judge_full(ctx, st, res, cases, custom=False, drive=True, label="full")
         ctx.log(f"package correspondence + oracle done: failures={len(res.failures)} mismatches={len(res.mismatches)}")
         rngc = ctx.sub_rng("custom")
-        ccases = [gen_case(rngc) for _ in range(ctx.budget(12, 120))]
+        ccases = [gen_case(rngc) for _ in range(ctx.budget(12, 200))]
         judge_full(ctx, st, res, ccases, custom=True, drive=True, label="custom-ops")
-    finally:
-        engine.cleanup_scratch()
     res.oracle_only += [
         "the emitted text passes through ast_to_str (autoflake, isort, black) and CPython's import + pydantic model_rebuild: observed on the generated packages, represented in Lean only by WellScoped",
         "behavioural identity of every client method (same variables JSON, same outcome through httpx.MockTransport + graphql-core execution) is judged by the oracle only",
@@ -980,12 +978,9 @@ def run(ctx: Ctx, st: Optional[LeanStatus]) -> Result:
 
 def search(ctx: Ctx) -> Result:
     res = Result()
-    try:
-        rng = ctx.sub_rng("search")
-        cases = [gen_case(rng) for _ in range(400)]
-        judge_full(ctx, None, res, cases, custom=False, drive=True, label="search")
-    finally:
-        engine.cleanup_scratch()
+    rng = ctx.sub_rng("search")
+    cases = [gen_case(rng) for _ in range(400)]
+    judge_full(ctx, None, res, cases, custom=False, drive=True, label="search")
     return res
 
 
@@ -996,7 +991,6 @@ def replay(ctx: Ctx, payload: Dict[str, Any]) -> int:
         return 1
     case = {"schema": inp["schema"], "queries": inp.get("queries", ""), "closure_check": inp.get("closure_check", True)}
     status, obs = engine.forked(full_case, case, bool(inp.get("custom")), True, timeout=600)
-    engine.cleanup_scratch()
     if status != "ok":
         print("harness:", status, obs)
         return 2
